@@ -37,6 +37,8 @@ def check(run):
                         'feed stops when closed', 9)
     R.rule('C07.eof', 'an empty read always leaves the receive loop; the loop re-tests is_closed', 2)
     R.rule('C07.timeout', 'the close timeout fires whenever it is due (so iteration terminates)', 5)
+    from .common import maybe_unbound
+    maybe_unbound(R, 'C07.monitor')       # no UnboundLocalError can escape in place of an event
     labels = label_yields(R)
     monitor(R, labels)
     gate(R)
